@@ -6,7 +6,7 @@ import ast
 from ..model import CFG, PDA
 from . import names
 from .common import site_of
-from .flow import (Oblig, calls, events, deps_of, arg_deps, SELF, P, result_locs)
+from .flow import (element_of_field_or_copy, Oblig, calls, events, deps_of, arg_deps, SELF, P, result_locs)
 
 PEPS = "pyformlang.pda.epsilon.Epsilon"
 EXPLANATION = (
@@ -78,13 +78,16 @@ def run(eng, rep, tier):
                       "to_final_state does not set (new start, marker, {new end}) on the result", summ,
                       site=site_of(prog, fi, fi.node))
         else:
-            ok = bool(to_end) and all(FS in ev.ctrl and (ev.args[2].alias & marker) for ev in to_end)
+            # the popped symbol ranges over the elements of the stack alphabet itself (identity, not mere dependence: the
+            # fresh marker depends on the alphabet too) and over the marker
+            ok = bool(to_end) and all(FS in ev.ctrl and (ev.args[2].alias & marker) and element_of_field_or_copy(summ, ev.args[2], ALPHA)
+                                      for ev in to_end)
             ob.decide("R1", "C13.3", fi, "final-states-pop-every-symbol-incl-marker", ok,
                       "every final state can pop every symbol of the alphabet extended with the bottom marker",
-                      "final states do not get a pop edge for the new bottom marker (or not for every final state)", summ,
+                      "final states do not get a pop edge for every symbol of the stack alphabet and the new bottom marker", summ,
                       site=(to_end[0].site.to_json() if to_end else site_of(prog, fi, fi.node)))
             loops = [ev for ev in adds if len(ev.args) > 3 and (ev.args[0].alias & ends) and (ev.args[3].alias & ends)]
-            ok2 = bool(loops) and all((ev.args[2].alias & marker) and ALPHA in deps_of(ev.args[2]) for ev in loops)
+            ok2 = bool(loops) and all((ev.args[2].alias & marker) and element_of_field_or_copy(summ, ev.args[2], ALPHA) for ev in loops)
             ob.decide("R1", "C13.3", fi, "end-state-pops-every-symbol-incl-marker", ok2,
                       "the end state pops every stack symbol including the bottom marker",
                       "the end state cannot pop every stack symbol (marker included)", summ,
